@@ -5,6 +5,7 @@ import (
 	"encoding/hex"
 	"fmt"
 	"math/big"
+	"strings"
 
 	ethcmn "github.com/ethereum/go-ethereum/common"
 	ethtypes "github.com/ethereum/go-ethereum/core/types"
@@ -90,6 +91,7 @@ func RunIface(ic *IfaceCase, verbose bool) (out *IfaceOutcome) {
 	var thash ethcmn.Hash
 	var snapsA, snapsR []int
 	touched := map[ethcmn.Address]bool{}
+	existedAtBegin := map[ethcmn.Address]bool{}
 	changed := 0
 	_ = changed
 
@@ -102,6 +104,12 @@ func RunIface(ic *IfaceCase, verbose bool) (out *IfaceOutcome) {
 		aw.BeginTx(thash)
 		rw.BeginTx(thash)
 		inTx = true
+		existedAtBegin = map[ethcmn.Address]bool{}
+		for _, a := range u.Addrs() {
+			if rw.DB.Exist(a) {
+				existedAtBegin[a] = true
+			}
+		}
 		snapsA, snapsR = nil, nil
 		touched = map[ethcmn.Address]bool{}
 	}
@@ -140,8 +148,9 @@ func RunIface(ic *IfaceCase, verbose bool) (out *IfaceOutcome) {
 		rw.DB.Finalise(true)
 		out.Counts["iface/Finalise"]++
 		if errA != nil {
-			ctx := contextFor(h, aw, u, touchedList(), "Finalise")
-			setDiv(step, &Divergence{Rule: "error", Context: ctx, Trait: "adapter-" + errClass(errA) + "-ref-none", What: fmt.Sprintf("Finalise(true): adapter error %v, reference has no error path", errA)})
+			cls := errClass(errA)
+			ctx := contextForHint(h, aw, u, touchedList(), "Finalise", strings.Contains(cls, "tombstone"))
+			setDiv(step, &Divergence{Rule: "error", Context: ctx, Trait: errorTrait(ctx, cls, "none"), What: fmt.Sprintf("Finalise(true): adapter error %v, reference has no error path", errA)})
 			return false
 		}
 		logsA := aw.DB.GetTxLogs()
@@ -164,6 +173,11 @@ func RunIface(ic *IfaceCase, verbose bool) (out *IfaceOutcome) {
 		for a := range h.DestroyedThisTx {
 			if rw.DB.Exist(a) {
 				delete(h.DestroyedThisTx, a) // the Suicide was reverted
+			}
+		}
+		for a := range existedAtBegin {
+			if !rw.DB.Exist(a) && !h.DestroyedThisTx[a] {
+				h.EmptiedThisTx[a] = true
 			}
 		}
 		if !commitFollows {
@@ -236,11 +250,16 @@ func RunIface(ic *IfaceCase, verbose bool) (out *IfaceOutcome) {
 		crash := safely(op.Op, func() {
 			switch op.Op {
 			case "CreateAccount":
+				// as evm.create uses it: CreateAccount then SetNonce(1). (A bare
+				// CreateAccount over an existing account is never journalled as
+				// dirty by go-ethereum and silently vanishes at its Commit.)
 				if rf.Exist(a) {
 					h.ResetThisTx[a] = true
 				}
 				ad.CreateAccount(a)
 				rf.CreateAccount(a)
+				ad.SetNonce(a, 1)
+				rf.SetNonce(a, 1)
 			case "AddBalance":
 				ad.AddBalance(a, amount())
 				rf.AddBalance(a, amount())
@@ -373,7 +392,7 @@ func RunIface(ic *IfaceCase, verbose bool) (out *IfaceOutcome) {
 		if crash != nil {
 			crash.Context = op.Op
 			if h.RevertedThisTx {
-				crash.Context = op.Op + "-after-revert"
+				crash.Context = "after-revert"
 			}
 			setDiv(i, crash)
 			return out
